@@ -38,6 +38,10 @@ type typeDictionary struct {
 	// typeErrs holds, for the types that were resolved with errors, those
 	// errors.
 	typeErrs map[*Type][]error
+	// resolvedTypes and resolvedTypedefs hold the types and typedefs whose
+	// resolved type has been memoised, so that forget can drop the memos.
+	resolvedTypes    []*Type
+	resolvedTypedefs []*Typedef
 }
 
 func newTypeDictionary() *typeDictionary {
@@ -47,6 +51,21 @@ func newTypeDictionary() *typeDictionary {
 		resolving:  map[*Typedef]bool{},
 		typeErrs:   map[*Type][]error{},
 	}
+}
+
+// forget drops the memoised results of type resolution.  What a type
+// resolves to depends on the modules that are loaded (a prefix denotes the
+// newest loaded revision of a module, an identity base may be in a module that
+// was missing), so results from before a load must not outlive it.
+func (d *typeDictionary) forget() {
+	for _, t := range d.resolvedTypes {
+		t.YangType = nil
+	}
+	for _, t := range d.resolvedTypedefs {
+		t.YangType = nil
+	}
+	d.resolvedTypes, d.resolvedTypedefs = nil, nil
+	d.typeErrs = map[*Type][]error{}
 }
 
 // add adds an entry to the typeDictionary d.
@@ -184,6 +203,7 @@ func (t *Typedef) resolve(d *typeDictionary) []error {
 		y.Root = &y
 	}
 	t.YangType = &y
+	d.resolvedTypedefs = append(d.resolvedTypedefs, t)
 	return nil
 }
 
@@ -271,6 +291,7 @@ check:
 
 	y.Base = td.Type
 	t.YangType = &y
+	d.resolvedTypes = append(d.resolvedTypes, t)
 
 	if v := t.RequireInstance; v != nil {
 		b, err := v.asBool()
